@@ -124,7 +124,20 @@ impl RoaringBitmap {
     /// assert_eq!(rb1, rb2);
     /// ```
     pub fn deserialize_from<R: io::Read>(reader: R) -> io::Result<RoaringBitmap> {
-        RoaringBitmap::deserialize_from_impl(reader, ArrayStore::try_from, BitmapStore::try_from)
+        let bitmap = RoaringBitmap::deserialize_from_impl(
+            reader,
+            ArrayStore::try_from,
+            BitmapStore::try_from,
+        )?;
+
+        if bitmap.containers.iter().any(Container::is_empty) {
+            return Err(io::Error::new(io::ErrorKind::InvalidData, "empty container"));
+        }
+        if bitmap.containers.windows(2).any(|pair| pair[0].key >= pair[1].key) {
+            return Err(io::Error::new(io::ErrorKind::InvalidData, "container keys are not sorted"));
+        }
+
+        Ok(bitmap)
     }
 
     /// Deserialize a bitmap into memory from [the standard Roaring on-disk
